@@ -94,7 +94,7 @@ def design_must_hold(chk, name, c, coverage=False):
 def control_must_fail(chk, name, c, expect):
     """A design that falls short (Leak / Lossy / DropPos) must be refuted by TLC with the expected invariant."""
     d = tlc.stage(name, ["History"])
-    r = tlc.run(d, "History", cfg_text=cfg(c, INVS, (), view=True), workers=2, timeout=600)
+    r = tlc.run(d, "History", cfg_text=cfg(c, [expect], (), view=True), workers=2, timeout=600)
     tlc.must_ok(r, name)
     chk.add(states=r.distinct, transitions=r.generated)
     if r.violated != expect:
@@ -227,8 +227,8 @@ def items_of(life):
     s = set()
     for _, sub, cx in contexts(life):
         plain = not cx["junk"] and not cx["ncompiled"] and not cx["route"]
-        if plain:
-            s.add(("base", sub, cx["seed"]))
+        if plain and cx["seed"] == 0:
+            s.add(("base", sub, 0))
         s.add(("seed", sub, cx["seed"]))
         for k in cx["junk"]:
             s.add(("junk", sub, k))
@@ -244,7 +244,8 @@ def items_of(life):
 
 
 def cost_of(life) -> float:
-    c = 0.06
+    """Estimated cpu seconds of living it in a fork of the zygote (fork + copy-on-write dominate)."""
+    c = 0.45
     for e in life["events"]:
         if e["act"] == "Generate":
             c += meta.COST.get(e["tmpl"], 0.04)
@@ -399,25 +400,26 @@ def validate(events, name="trace"):
 # reporting
 
 
-def _ctx_of(lives, where, line):
+def _ctx_of(lives, events, where, line):
     i, j = where[line - 1]
+    e = events[line - 1]
     for jj, sub, cx in contexts(lives[i]):
         if jj == j:
+            cx = dict(cx, objects_before={k: e["cnt"][k] - e["made"][k] for k in e["cnt"]})
             return i, cx
     return i, {}
 
 
 def _label(cx1, cx2):
+    """Which parts of the hidden state History.tla keeps differ between two observations."""
     f = []
     if cx1.get("seed") != cx2.get("seed"):
         f.append("seed")
-    if cx1.get("junk") != cx2.get("junk"):
-        f.append("junk")
-    if (cx1.get("ncompiled", 0) > 0) != (cx2.get("ncompiled", 0) > 0) or cx1.get("after") != cx2.get("after"):
-        f.append("compiled")
-    if cx1.get("route") != cx2.get("route"):
-        f.append("route")
-    return "+".join(f) or "same-context"
+    if cx1.get("objects_before") != cx2.get("objects_before") or cx1.get("route") != cx2.get("route"):
+        f.append("counters")
+    if (cx1.get("ncompiled", 0) > 0) != (cx2.get("ncompiled", 0) > 0):
+        f.append("cache")
+    return "+".join(f) or "same-state"
 
 
 def _diff(texts: Path, a: str, b: str, na: str, nb: str, limit=60):
@@ -447,22 +449,22 @@ def _abbrev(life):
 def report(chk, own, lives, events, where, viol, texts):
     for line, prop, first in viol:
         e, f = events[line - 1], events[first - 1]
-        li, cx = _ctx_of(lives, where, line)
-        lf, cf = _ctx_of(lives, where, first)
+        li, cx = _ctx_of(lives, events, where, line)
+        lf, cf = _ctx_of(lives, events, where, first)
         pay = {"property_invariant": prop, "event": {k: v for k, v in e.items() if k not in ("idc", "defs")},
                "first": {k: v for k, v in f.items() if k not in ("idc", "defs")},
                "context": cx, "first_context": cf, "lives": [lives[lf], lives[li]] if lf != li else [lives[li]],
                "abbrev": [_abbrev(lives[lf]), _abbrev(lives[li])]}
         if prop == "Functional":
             lab = _label(cf, cx)
-            key = f"text:{e['tmpl']}:{e['opt']}:{lab}"
+            key = f"text:{lab}:{e['tmpl']}"
             what = (f"generated source for template {e['tmpl']} (options {e['opt']}) is not a function of its UFL "
                     f"signature: sha1 {f['sha'][:12]} in {f['proc']} {cf} but {e['sha'][:12]} in {e['proc']} {cx} "
                     f"[differs in: {lab}]")
             pay["diff"] = _diff(texts, f["sha"], e["sha"], f"{f['proc']}:{f['sha'][:12]}", f"{e['proc']}:{e['sha'][:12]}")
         elif prop == "Stable":
             lab = _label(cf, cx)
-            key = f"name:{_short(e['recipe'])}:{lab}"
+            key = f"name:{lab}:{_short(e['recipe'])}"
             what = (f"JIT names for request {_short(e['recipe'])} differ between processes: {f['modname']} "
                     f"{f['objnames']} in {f['proc']} {cf} vs {e['modname']} {e['objnames']} in {e['proc']} {cx}")
         elif prop == "Separating":
@@ -561,10 +563,10 @@ def run_c12(chk):
     chk.add(transitions=r1.generated + r2.generated + r3.generated, states=r1.distinct + r2.distinct,
             histories_enumerated=len(h1) + len(h2), histories_simulated=len(h3), candidate_lives=len(cand))
     must = [x for x in cand if len(x["events"]) == 1 and x["events"][0]["act"] == "Generate"
-            and x["events"][0]["route"] == 0 and x["seed"] in (0, 1)]
-    lives, seen, spent = select(cand, 110 if quick else 2300, must)
+            and x["events"][0]["route"] == 0 and x["seed"] == 0]
+    lives, seen, spent = select(cand, 80 if quick else 2000, must)
     chk.add(context_items_covered=len(seen))
-    lives, events, where, viol = execute_and_judge(chk, "C12", lives, 36 if quick else 300, "c12")
+    lives, events, where, viol = execute_and_judge(chk, "C12", lives, 24 if quick else 300, "c12")
     _evidence(chk, lives, events, "Generate")
     chk.assumptions += [
         "processes share nothing but the registries (no cache directory, no option files), so events of distinct "
@@ -612,8 +614,8 @@ def c13_axes(quick):
 def run_c13(chk):
     quick = chk.tier == "quick"
     seeds = seeds_for(chk, 1 if quick else 4)
-    base = consts(Sig=["s1"], Route=[0, 1], Opt=["o1", "o2"], Vis=["v1", "v2"], Hid=["h1", "h2"], Flag=["f1", "f2"],
-                  MaxObjs=2, MaxEvents=4 if quick else 5)
+    base = consts(Sig=["s1"], Route=[0] if quick else [0, 1], Opt=["o1"] if quick else ["o1", "o2"], Vis=["v1", "v2"],
+                  Hid=["h1", "h2"], Flag=["f1", "f2"], MaxObjs=2, MaxEvents=4)
     small = dict(base, Opt=["o1"], Flag=["f1"], Route=[0], MaxEvents=4)
     run_parallel([
         lambda: design_must_hold(chk, "c13-design", base, coverage=True),
@@ -638,9 +640,9 @@ def run_c13(chk):
     chk.add(transitions=sum(r.generated for _, r in res), states=sum(r.distinct for _, r in res[0::2]),
             requests_in_algebra=len(recipes), histories_simulated=sum(len(h) for h, _ in res[1::2]),
             candidate_lives=len(enum) + len(sim))
-    lives, seen, spent = select(enum + sim, 120 if quick else 2300, must)
+    lives, seen, spent = select(enum + sim, 80 if quick else 2000, must)
     chk.add(context_items_covered=len(seen))
-    lives, events, where, viol = execute_and_judge(chk, "C13", lives, 30 if quick else 250, "c13")
+    lives, events, where, viol = execute_and_judge(chk, "C13", lives, 24 if quick else 250, "c13")
     _evidence(chk, lives, events, "Name")
     classes = {e["klass"] for e in events if e.get("hasclass")}
     mods = {e["modname"] for e in events if e["act"] == "Name"}
